@@ -10,8 +10,10 @@ structure AddInv (a0 : AtomsS) (c0 : Ctx) (s : State) (K : Nat) : Prop where
   take : s.atoms.rows.take a0.rows.length = a0.rows
   len : s.atoms.rows.length = a0.rows.length + K
   added : s.ctx.addedIdx = (List.range K).map (· + a0.rows.length)
-  core : ctxCore { s.ctx with addedIdx := [], addedAtoms := [], delta := 0 } =
-         ctxCore { c0 with addedIdx := [], addedAtoms := [], delta := 0 }
+  core : ctxCore { s.ctx with addedIdx := [], addedAtoms := [], addedSizes := [], delta := 0 } =
+         ctxCore { c0 with addedIdx := [], addedAtoms := [], addedSizes := [], delta := 0 }
+  /-- while no row has been added no particle size has been recorded -/
+  sizes0 : K = 0 → s.ctx.addedSizes = c0.addedSizes
 
 theorem fixedOK_of_addInv (a0 : AtomsS) (c0 : Ctx) (s : State) (K : Nat) (h : AddInv a0 c0 s K)
     (hfx : FixedOK a0) : FixedOK s.atoms := by
@@ -45,8 +47,8 @@ theorem compExchAddLoop_inv (a0 : AtomsS) (c0 : Ctx) (hfx : FixedOK a0) (rs : Li
     rw [hadd] at hsp
     obtain ⟨_, hc, halt⟩ := hsp
     dsimp only at hc halt ⊢
-    have hcore1 : ctxCore { s1.ctx with addedIdx := [], addedAtoms := [], delta := 0 } =
-        ctxCore { c0 with addedIdx := [], addedAtoms := [], delta := 0 } := by
+    have hcore1 : ctxCore { s1.ctx with addedIdx := [], addedAtoms := [], addedSizes := [], delta := 0 } =
+        ctxCore { c0 with addedIdx := [], addedAtoms := [], addedSizes := [], delta := 0 } := by
       rw [← h.core]
       simp only [ctxCore] at hc ⊢
       cases hs1 : s1.ctx; cases hs : s.ctx
@@ -55,17 +57,20 @@ theorem compExchAddLoop_inv (a0 : AtomsS) (c0 : Ctx) (hfx : FixedOK a0) (rs : Li
       simp_all
     have hadded1 : s1.ctx.addedIdx = s.ctx.addedIdx := by
       have := congrArg Ctx.addedIdx hc; simpa [ctxCore] using this
+    have hsizes1 : s1.ctx.addedSizes = s.ctx.addedSizes := by
+      have := congrArg Ctx.addedSizes hc; simpa [ctxCore] using this
     rcases halt with ⟨hidx, hat⟩ | ⟨hidx, d, hd⟩
     · -- this member's insertion was vetoed: atoms as before
       simp only [hidx, List.isEmpty_nil, if_true]
       apply ih ok _ K _ hok
-      refine ⟨?_, ?_, ?_, ?_, ?_, ?_⟩
+      refine ⟨?_, ?_, ?_, ?_, ?_, ?_, ?_⟩
       · show s1.atoms.cell = a0.cell; rw [hat]; exact h.cell
       · show s1.atoms.fixed = a0.fixed; rw [hat]; exact h.fixed
       · show s1.atoms.rows.take a0.rows.length = a0.rows; rw [hat]; exact h.take
       · show s1.atoms.rows.length = a0.rows.length + K; rw [hat]; exact h.len
       · show s1.ctx.addedIdx = _; rw [hadded1]; exact h.added
       · exact hcore1
+      · intro hk; show s1.ctx.addedSizes = _; rw [hsizes1]; exact h.sizes0 hk
     · -- inserted `k` rows
       generalize hnew : toAddOf (s.obj r) s.ctx = new at hidx hd
       by_cases hie : idx.isEmpty = true
@@ -85,16 +90,17 @@ theorem compExchAddLoop_inv (a0 : AtomsS) (c0 : Ctx) (hfx : FixedOK a0) (rs : Li
           intro i
           rw [applyDisp_untouched _ _ _ _ i (by simp [addMoving])]
           simp [AtomsS.extend]
-        refine ⟨?_, ?_, ?_, ?_, ?_, hcore1⟩
+        refine ⟨?_, ?_, ?_, ?_, ?_, hcore1, ?_⟩
         · show s1.atoms.cell = a0.cell; rw [hd]; exact h.cell
         · show s1.atoms.fixed = a0.fixed; rw [hd]; exact h.fixed
         · show s1.atoms.rows.take a0.rows.length = a0.rows; rw [hrows]; exact h.take
         · show s1.atoms.rows.length = a0.rows.length + K; rw [hrows]; exact h.len
         · show s1.ctx.addedIdx = _; rw [hadded1]; exact h.added
+        · intro hk; show s1.ctx.addedSizes = _; rw [hsizes1]; exact h.sizes0 hk
       · have hie' : idx.isEmpty = false := by simpa using hie
         simp only [hie', Bool.false_eq_true, if_false]
         apply ih true _ (K + new.length) _ (fun hx => by cases hx)
-        refine ⟨?_, ?_, ?_, ?_, ?_, ?_⟩
+        refine ⟨?_, ?_, ?_, ?_, ?_, ?_, ?_⟩
         · show s1.atoms.cell = a0.cell; rw [hd]; exact h.cell
         · show s1.atoms.fixed = a0.fixed; rw [hd]; exact h.fixed
         · show s1.atoms.rows.take a0.rows.length = a0.rows
@@ -115,9 +121,18 @@ theorem compExchAddLoop_inv (a0 : AtomsS) (c0 : Ctx) (hfx : FixedOK a0) (rs : Li
         · show (recordAdded s1.ctx idx s1.atoms.rows).addedIdx = _
           simp only [recordAdded, hadded1, h.added, hidx, addMoving, h.len]
           exact range_shift K new.length a0.rows.length
-        · show ctxCore { (recordAdded s1.ctx idx s1.atoms.rows) with addedIdx := [], addedAtoms := [], delta := 0 } = _
+        · show ctxCore { (recordAdded s1.ctx idx s1.atoms.rows) with addedIdx := [], addedAtoms := [], addedSizes := [], delta := 0 } = _
           rw [← hcore1]
           simp [recordAdded, ctxCore]
+        · intro hk
+          exfalso
+          have : 0 < new.length := by
+            have hl := congrArg List.length hidx
+            simp only [addMoving, List.length_map, List.length_range] at hl
+            cases idx with
+            | nil => simp at hie
+            | cons _ _ => simp at hl; omega
+          omega
 
 end MM
 
@@ -165,7 +180,7 @@ theorem compExch_insertion_not_accepted_restores (sim : Sim) (he : sim.ens = .gr
     (s : State) (hinv : InvG s) (hadd : s.inp.draw.1 < b) :
     (trial sim (.compExch rs b) false s).2.atoms = s.atoms := by
   have h0 : AddInv s.atoms s.ctx ({ s with inp := s.inp.draw.2 } : State) 0 := by
-    refine ⟨rfl, rfl, ?_, by simp, ?_, rfl⟩
+    refine ⟨rfl, rfl, ?_, by simp, ?_, rfl, fun _ => rfl⟩
     · simp
     · simpa using hinv.noAdded
   obtain ⟨K', hK, hzero⟩ := compExchAddLoop_inv s.atoms s.ctx hinv.fixedOK rs false _ 0 h0 (fun _ => rfl)
